@@ -4,9 +4,13 @@
  * INV = LQ && UNIQ && NRPN_RANGE (spec/lq_spec.h; all other fields unconstrained) and every argument:
  *     INV holds again after op, and the abstract transition is the one the statement demands.
  * Together with the base case (a freshly constructed manager: k = 0, all ranks/bindings -1) this decides the
- * claim for histories of every length.  Configuration: NS slots x PS sub-automations (compile time; the check
- * enumerates the whole configuration space 1..6 x 1..3). Every loop - of the code, of the spec and of this
- * harness - is bounded by NS, PS or LQ_MAXN, so the unwinding is complete (unwinding assertions are on).
+ * claim for histories of every length.  Configuration space 1..6 slots x 1..3 sub-automations:
+ *   -DSYMCFG -DNS=6 -DPS=3 : nslots and per_slot are symbolic inputs, ONE obligation covers the whole space (all tiers);
+ *   -DNS=n -DPS=p          : exactly that configuration with exact-size heap objects (thorough tier, all 18).
+ * Every loop - of the code, of the spec and of this harness - is bounded by nslots <= 6, per_slot <= 3 or LQ_MAXN,
+ * so the unwinding (--unwind 8) is complete; the unwinding assertions are on and prove that.
+ * setSlot is verified against its contract (h_setSlot); h_handleMidi is compiled with -DC19_REPLACE_setSlot and then
+ * calls that contract instead of the body (thorough tier also runs it end to end, without the replacement).
  *
  * One entry point per operation; -DCASE_xxx restricts an entry to one case of the transition so that a failure
  * names the case (the oracle is the same for all cases). */
